@@ -462,8 +462,18 @@ public:
             auto* CO = E->getCallOperator();
             if (CO && wanted(CO)) { o["fid"] = fnId(CO); enqueue(CO); }
             else if (CO && inRoot(CO->getLocation())) {
-                // generic lambda: specialisations are emitted when called
+                // generic lambda: emit every instantiated specialisation of its call operator
                 o["generic"] = true;
+                if (auto* FTD = E->getLambdaClass()->getDependentLambdaCallOperator()) {
+                    json::Array fids;
+                    for (auto* Spec : FTD->specializations()) {
+                        const FunctionDecl* Def = nullptr;
+                        const FunctionDecl* SF = Spec;
+                        if (SF->hasBody(Def)) SF = Def;
+                        if (wanted(SF)) { fids.push_back(fnId(SF)); enqueue(SF); }
+                    }
+                    o["fids"] = std::move(fids);
+                }
             }
             o["f"] = locStr(E->getBeginLoc());
             o["lcls"] = declId(E->getLambdaClass());
@@ -923,6 +933,18 @@ public:
             if (!c.empty()) f["tcls"] = c;
             f["isref"] = F->getType()->isReferenceType();
             f["l"] = locStr(F->getLocation());
+            f["canon"] = trunc(F->getType().getCanonicalType().getAsString(PP), 300);
+            {
+                QualType FT = F->getType().getNonReferenceType().getCanonicalType();
+                if (auto* FRD = FT->getAsCXXRecordDecl())
+                    if (auto* S = dyn_cast<ClassTemplateSpecializationDecl>(FRD)) {
+                        auto& TA = S->getTemplateArgs();
+                        if (TA.size() > 0 && TA[0].getKind() == TemplateArgument::Type) {
+                            auto c0 = typeCls(TA[0].getAsType());
+                            if (!c0.empty()) f["targ0"] = c0;
+                        }
+                    }
+            }
             fs.push_back(std::move(f));
         }
         o["fields"] = std::move(fs);
